@@ -1,0 +1,350 @@
+// This Source Code Form is subject to the terms of the Mozilla Public
+// License, v. 2.0. If a copy of the MPL was not distributed with this
+// file, You can obtain one at http://mozilla.org/MPL/2.0/.
+//
+// Copyright (c) DUSK NETWORK. All rights reserved.
+
+//! Verification hooks (feature `verif`): thin public wrappers over the
+//! crate-private FFT / polynomial / KZG kernels and the prover "force"
+//! switch used by conformance harnesses. Nothing in here changes the
+//! behaviour of the library; it is not compiled unless the feature is on.
+
+use alloc::vec::Vec;
+use core::sync::atomic::{AtomicBool, Ordering};
+
+use dusk_bls12_381::{BlsScalar, G1Affine};
+use dusk_bytes::Serializable;
+use merlin::Transcript;
+
+use crate::commitment_scheme::{
+    AggregateProof, CommitKey, Commitment, KzgProof, PublicParameters,
+};
+use crate::error::Error;
+use crate::fft::{EvaluationDomain, Polynomial};
+
+pub use crate::composer::{VerifRow, VerifSnapshot};
+
+static FORCE_PROVE: AtomicBool = AtomicBool::new(false);
+
+/// Turns the prover's force switch on or off. While it is on,
+/// `quotient_poly::compute` does not return `CircuitUnsatisfied`; it keeps
+/// the low `4n + 7` coefficients of the interpolated quotient instead
+/// (i.e. the remainder of the division by the vanishing polynomial is
+/// dropped), so that a proof is produced for an unsatisfied assignment.
+pub fn set_force_prove(on: bool) {
+    FORCE_PROVE.store(on, Ordering::SeqCst);
+}
+
+/// Current state of the force switch.
+pub fn force_prove() -> bool {
+    FORCE_PROVE.load(Ordering::SeqCst)
+}
+
+fn poly(coeffs: &[BlsScalar]) -> Polynomial {
+    Polynomial::from_coefficients_vec(coeffs.to_vec())
+}
+
+/// Description of the evaluation domain for `num_coeffs` coefficients:
+/// `(size, group_gen, group_gen_inv, size_inv, coset generator)`.
+pub fn domain_params(
+    num_coeffs: usize,
+) -> Result<(usize, BlsScalar, BlsScalar, BlsScalar, BlsScalar), Error> {
+    let d = EvaluationDomain::new(num_coeffs)?;
+    Ok((
+        d.size(),
+        d.group_gen,
+        d.group_gen_inv,
+        d.size_inv,
+        dusk_bls12_381::GENERATOR,
+    ))
+}
+
+/// `EvaluationDomain::new(num_coeffs)?.fft(values)`.
+pub fn fft(
+    num_coeffs: usize,
+    values: &[BlsScalar],
+) -> Result<Vec<BlsScalar>, Error> {
+    Ok(EvaluationDomain::new(num_coeffs)?.fft(values))
+}
+
+/// `EvaluationDomain::new(num_coeffs)?.ifft(values)`.
+pub fn ifft(
+    num_coeffs: usize,
+    values: &[BlsScalar],
+) -> Result<Vec<BlsScalar>, Error> {
+    Ok(EvaluationDomain::new(num_coeffs)?.ifft(values))
+}
+
+/// `EvaluationDomain::new(num_coeffs)?.coset_fft(values)`.
+pub fn coset_fft(
+    num_coeffs: usize,
+    values: &[BlsScalar],
+) -> Result<Vec<BlsScalar>, Error> {
+    Ok(EvaluationDomain::new(num_coeffs)?.coset_fft(values))
+}
+
+/// `EvaluationDomain::new(num_coeffs)?.coset_ifft(values)`.
+pub fn coset_ifft(
+    num_coeffs: usize,
+    values: &[BlsScalar],
+) -> Result<Vec<BlsScalar>, Error> {
+    Ok(EvaluationDomain::new(num_coeffs)?.coset_ifft(values))
+}
+
+/// The serial reference FFT over a vector whose length is a power of two.
+pub fn serial_fft(values: &[BlsScalar]) -> Result<Vec<BlsScalar>, Error> {
+    let d = EvaluationDomain::new(values.len())?;
+    let mut v = values.to_vec();
+    v.resize(d.size(), BlsScalar::zero());
+    crate::fft::domain::alloc::serial_fft(
+        &mut v,
+        d.group_gen,
+        d.log_size_of_group,
+    );
+    Ok(v)
+}
+
+/// Coefficients of `Polynomial::from_coefficients_vec(coeffs)` (trailing
+/// zeros trimmed).
+pub fn poly_normalize(coeffs: &[BlsScalar]) -> Vec<BlsScalar> {
+    poly(coeffs).to_vec()
+}
+
+/// `degree()` of the polynomial with these coefficients.
+pub fn poly_degree(coeffs: &[BlsScalar]) -> usize {
+    poly(coeffs).degree()
+}
+
+/// `&a + &b`.
+pub fn poly_add(a: &[BlsScalar], b: &[BlsScalar]) -> Vec<BlsScalar> {
+    (&poly(a) + &poly(b)).to_vec()
+}
+
+/// `a += &b`.
+pub fn poly_add_assign(a: &[BlsScalar], b: &[BlsScalar]) -> Vec<BlsScalar> {
+    let mut a = poly(a);
+    a += &poly(b);
+    a.to_vec()
+}
+
+/// `a += (f, &b)`.
+pub fn poly_add_assign_scaled(
+    a: &[BlsScalar],
+    f: BlsScalar,
+    b: &[BlsScalar],
+) -> Vec<BlsScalar> {
+    let mut a = poly(a);
+    a += (f, &poly(b));
+    a.to_vec()
+}
+
+/// `&a - &b`.
+pub fn poly_sub(a: &[BlsScalar], b: &[BlsScalar]) -> Vec<BlsScalar> {
+    (&poly(a) - &poly(b)).to_vec()
+}
+
+/// `a -= &b`.
+pub fn poly_sub_assign(a: &[BlsScalar], b: &[BlsScalar]) -> Vec<BlsScalar> {
+    let mut a = poly(a);
+    a -= &poly(b);
+    a.to_vec()
+}
+
+/// `-a`.
+pub fn poly_neg(a: &[BlsScalar]) -> Vec<BlsScalar> {
+    (-poly(a)).to_vec()
+}
+
+/// `&a * &b` (FFT based).
+pub fn poly_mul(a: &[BlsScalar], b: &[BlsScalar]) -> Vec<BlsScalar> {
+    (&poly(a) * &poly(b)).to_vec()
+}
+
+/// `&a * &k`.
+pub fn poly_scale(a: &[BlsScalar], k: &BlsScalar) -> Vec<BlsScalar> {
+    (&poly(a) * k).to_vec()
+}
+
+/// `&a + &k`.
+pub fn poly_add_scalar(a: &[BlsScalar], k: &BlsScalar) -> Vec<BlsScalar> {
+    (&poly(a) + k).to_vec()
+}
+
+/// `&a - &k`.
+pub fn poly_sub_scalar(a: &[BlsScalar], k: &BlsScalar) -> Vec<BlsScalar> {
+    (&poly(a) - k).to_vec()
+}
+
+/// `a.evaluate(&x)`.
+pub fn poly_evaluate(a: &[BlsScalar], x: &BlsScalar) -> BlsScalar {
+    poly(a).evaluate(x)
+}
+
+/// `a.ruffini(z)`.
+pub fn poly_ruffini(a: &[BlsScalar], z: BlsScalar) -> Vec<BlsScalar> {
+    poly(a).ruffini(z).to_vec()
+}
+
+/// `util::batch_inversion`.
+pub fn batch_inversion(v: &[BlsScalar]) -> Vec<BlsScalar> {
+    let mut v = v.to_vec();
+    crate::util::batch_inversion(&mut v);
+    v
+}
+
+/// `domain.evaluate_all_lagrange_coefficients(tau)`.
+pub fn lagrange_coefficients(
+    num_coeffs: usize,
+    tau: BlsScalar,
+) -> Result<Vec<BlsScalar>, Error> {
+    Ok(EvaluationDomain::new(num_coeffs)?
+        .evaluate_all_lagrange_coefficients(tau))
+}
+
+/// `domain.evaluate_vanishing_polynomial(&tau)`.
+pub fn vanishing_eval(
+    num_coeffs: usize,
+    tau: &BlsScalar,
+) -> Result<BlsScalar, Error> {
+    Ok(EvaluationDomain::new(num_coeffs)?.evaluate_vanishing_polynomial(tau))
+}
+
+/// `domain.compute_vanishing_poly_over_coset(degree)` evaluations; `None`
+/// when `degree >= size` (the kernel asserts this).
+pub fn vanishing_over_coset(
+    num_coeffs: usize,
+    degree: u64,
+) -> Result<Option<Vec<BlsScalar>>, Error> {
+    let d = EvaluationDomain::new(num_coeffs)?;
+    if degree >= d.size() as u64 {
+        return Ok(None);
+    }
+    Ok(Some(d.compute_vanishing_poly_over_coset(degree).evals))
+}
+
+/// `compute_barycentric_eval(evaluations, point, domain)`.
+pub fn barycentric_eval(
+    num_coeffs: usize,
+    evaluations: &[BlsScalar],
+    point: &BlsScalar,
+) -> Result<BlsScalar, Error> {
+    let d = EvaluationDomain::new(num_coeffs)?;
+    Ok(crate::proof_system::proof::alloc::compute_barycentric_eval(
+        evaluations,
+        point,
+        &d,
+    ))
+}
+
+/// The verifier's fused first-Lagrange / public-input evaluation:
+/// `(L_1(point), PI(point))` for public inputs at the given row indexes.
+pub fn fused_lagrange_pi(
+    num_coeffs: usize,
+    pi_rows: &[usize],
+    pi_values: &[BlsScalar],
+    point: &BlsScalar,
+) -> Result<(BlsScalar, BlsScalar), Error> {
+    let d = EvaluationDomain::new(num_coeffs)?;
+    let roots: Vec<BlsScalar> = pi_rows
+        .iter()
+        .map(|i| d.group_gen_inv.pow(&[*i as u64, 0, 0, 0]))
+        .collect();
+    let z_h = d.evaluate_vanishing_polynomial(point);
+    crate::proof_system::proof::alloc::verif_fused_evaluations(
+        &roots, pi_values, point, &z_h, &d,
+    )
+}
+
+/// `pp.trim(n)`: returns the trimmed commit key (raw bytes) and the number
+/// of powers it holds.
+pub fn trim(
+    pp: &PublicParameters,
+    n: usize,
+) -> Result<(Vec<u8>, usize), Error> {
+    let (ck, _) = pp.trim(n)?;
+    Ok((ck.to_raw_var_bytes(), ck.powers_of_g.len()))
+}
+
+/// The `i`-th power of the commit key of `pp`, compressed.
+pub fn srs_power(pp: &PublicParameters, i: usize) -> Option<[u8; 48]> {
+    pp.commit_key.powers_of_g.get(i).map(|p| p.to_bytes())
+}
+
+/// Number of G1 powers held by `pp`.
+pub fn srs_len(pp: &PublicParameters) -> usize {
+    pp.commit_key.powers_of_g.len()
+}
+
+fn commit_key_for(
+    pp: &PublicParameters,
+    trim_n: Option<usize>,
+) -> Result<CommitKey, Error> {
+    match trim_n {
+        Some(n) => pp.trim(n).map(|(ck, _)| ck),
+        None => Ok(pp.commit_key.clone()),
+    }
+}
+
+/// `commit_key.commit(poly)` with the key of `pp` (optionally trimmed with
+/// `pp.trim(n)`). The polynomial is built with `from_coefficients_vec`.
+pub fn commit(
+    pp: &PublicParameters,
+    trim_n: Option<usize>,
+    coeffs: &[BlsScalar],
+) -> Result<[u8; 48], Error> {
+    let ck = commit_key_for(pp, trim_n)?;
+    ck.commit(&poly(coeffs)).map(|c| c.0.to_bytes())
+}
+
+/// `CommitKey::compute_aggregate_witness(polys, point, v)` coefficients.
+pub fn aggregate_witness(
+    polys: &[Vec<BlsScalar>],
+    point: &BlsScalar,
+    v: &BlsScalar,
+) -> Vec<BlsScalar> {
+    let polys: Vec<Polynomial> = polys.iter().map(|p| poly(p)).collect();
+    let refs: Vec<&Polynomial> = polys.iter().collect();
+    CommitKey::compute_aggregate_witness(&refs, point, v).to_vec()
+}
+
+fn g1(bytes: &[u8; 48]) -> Result<Commitment, Error> {
+    Ok(Commitment::from(G1Affine::from_bytes(bytes)?))
+}
+
+/// `AggregateProof { witness, parts }.flatten(v)`:
+/// returns `(flattened commitment, flattened evaluation)`.
+pub fn flatten(
+    witness: &[u8; 48],
+    parts: &[(BlsScalar, [u8; 48])],
+    v: &BlsScalar,
+) -> Result<([u8; 48], BlsScalar), Error> {
+    let mut agg = AggregateProof::with_witness(g1(witness)?);
+    for (e, c) in parts {
+        agg.add_part((*e, g1(c)?));
+    }
+    let p = agg.flatten(v);
+    Ok((p.commitment_to_polynomial.0.to_bytes(), p.evaluated_point))
+}
+
+/// `opening_key.batch_check(points, proofs, transcript)` with a fresh
+/// transcript under `label`. Each proof is `(commitment to polynomial,
+/// claimed evaluation, commitment to witness)`.
+pub fn batch_check(
+    pp: &PublicParameters,
+    label: &'static [u8],
+    points: &[BlsScalar],
+    proofs: &[([u8; 48], BlsScalar, [u8; 48])],
+) -> Result<(), Error> {
+    let proofs = proofs
+        .iter()
+        .map(|(c, e, w)| {
+            Ok(KzgProof {
+                commitment_to_witness: g1(w)?,
+                evaluated_point: *e,
+                commitment_to_polynomial: g1(c)?,
+            })
+        })
+        .collect::<Result<Vec<_>, Error>>()?;
+    let mut transcript = Transcript::new(label);
+    pp.opening_key.batch_check(points, &proofs, &mut transcript)
+}
